@@ -249,6 +249,7 @@ func (l *fileBasedLoader) instantiate(c px.Context, smartPath SmartPath, name px
 
 	// Lock the on the name. Several instantiations of different names must be allowed to execute in parallel
 	var nameLock *sync.Mutex
+	verifhook.Point("filebased.instantiate.enter")
 	l.locksLock.Lock()
 	if lk, ok := l.locks[name.MapKey()]; ok {
 		nameLock = lk
